@@ -255,7 +255,7 @@ def r3(ctx, rep, prog):
                 for c in b['calls']:
                     for t in prog.targets_of_call(c):
                         h = prog.bodies.get(t)
-                        if h is None or h['kind'] != 'fn' or h['file'] != b['file'] or h['id'].split('::')[-1] in [p_[0] for p_ in pairs] + ['parse_type_alias']:
+                        if h is None or h['kind'] not in ('fn', 'assoc_fn') or h['file'] != b['file'] or h['id'].split('::')[-1] in [p_[0] for p_ in pairs] + ['parse_type_alias']:
                             continue
                         hes = agg(h, 'parser::ParseError', e)
                         if not hes:
@@ -299,6 +299,20 @@ def r3(ctx, rep, prog):
             rep.check(ok, 'R3', f'parse_enum:{e}', f'the test yielding ParseError::{e} dominates the construction of RustEnum::Algebraic', f'parse_enum: RustEnum::Algebraic can be built without passing the test that yields ParseError::{e}', site)
             continue
         if not found:
+            # the requirement may be enforced by a helper / a method of a private type whose Result reaches `?` before the
+            # Algebraic value is built (`keys.require_for_algebraic_enum(ident)?`)
+            via = None
+            for c in b['calls']:
+                for t_ in prog.targets_of_call(c):
+                    h_ = prog.bodies.get(t_)
+                    if h_ is None or h_['kind'] not in ('fn', 'assoc_fn') or h_['file'] != b['file']:
+                        continue
+                    region_h = [h_] + [prog.bodies[ck_] for ck_ in prog.children.get(t_, [])]
+                    if any(agg(hb_, 'parser::ParseError', e) for hb_ in region_h) and reaches_try(b, c['dest']) == 'try' and alg and all(prog.dominates(b, c['bb'], a_['bb']) for a_ in alg):
+                        via = h_
+            if via is not None:
+                rep.ok('R3', f'parse_enum:{e}', f"{via['id'].split('::')[-1]}(..)? — which yields ParseError::{e} — dominates the construction of RustEnum::Algebraic", site)
+                continue
             rep.fail('R3', f'parse_enum:{e}', f'parse_enum never constructs ParseError::{e}: a data-carrying enum without both serde tag and content is no longer rejected', site)
             continue
         # the closure is handed to ok_or_else whose result reaches `?` before Algebraic is built
